@@ -117,6 +117,20 @@ def run(case):
         spy_args["kw"] = sorted(kw)
         return type(uncertainty)(np.zeros(np.shape(data)[1:]))
     fails = []
+    if len(shape) >= 2 and len(set(bins)) > 1 and case["wseed"] % 3 == 1:
+        # another cube with the same rebinned shape and the same number of members per block, the bin shape split the
+        # other way round over the axes, is rebinned first: one call must not depend on what an earlier one left behind
+        from ndcube import NDCube
+        rb = list(bins[::-1])
+        dshape = tuple((s // b) * r for s, b, r in zip(shape, bins, rb))
+        try:
+            with warnings.catch_warnings():
+                warnings.simplefilter("ignore")
+                NDCube(np.ones(dshape), wcs=W.make_wcs(random.Random(3), dshape, "probe"),
+                       uncertainty=StdDevUncertainty(np.ones(dshape))).rebin(tuple(rb), operation=np.sum, propagate_uncertainties=True)
+            tags.append("after-another-geometry")
+        except Exception:
+            pass
     with warnings.catch_warnings(record=True) as wlist:
         warnings.simplefilter("always")
         try:
